@@ -83,6 +83,24 @@ theorem chars_slice_no_panic (dbg : Bool) (s : Str) (i j : U64) : bind_StringCha
       | ok v => simp
       | panic => exact absurd hr h
 
+/-- `StringLines::slice` indexes with `&s[start_idx..end_idx]`; both offsets are
+    0, an offset just after a newline, or the string's length, taken in
+    ascending order — always char boundaries.  (Over the hand model of the two
+    `for` loops, `StringLines_slice_model`, tied by correspondence.) -/
+theorem lines_slice_no_panic (dbg : Bool) (s : Str) (i j : U64) : bind_StringLines_slice dbg s i j ≠ .panic := by
+  unfold bind_StringLines_slice RQ.bind
+  cases RInt.try_into i with
+  | none => simp
+  | some i' =>
+    cases RInt.try_into j with
+    | none => simp
+    | some j' =>
+      have h := lines_slice_model_no_panic s i' j'
+      simp only [StringLines_slice]
+      cases hr : StringLines_slice_model s i' j' with
+      | ok v => simp
+      | panic => exact absurd hr h
+
 /-! ### `Prefix.new`: the one built-in that unwraps -/
 
 omit [Target] in
@@ -235,5 +253,32 @@ theorem strfn_panic_surface (f : StrFn) :
 
 example : (Binding.Prefix_new).surface.any panics = true := by decide
 example : Binding.all.length ≥ 60 := by decide
+
+/-! ### summary -/
+
+/-- **builtin_no_panic**: every built-in of the default runtime that validates
+    its arguments returns a value or the documented `None` — never a panic —
+    for ALL arguments, in both overflow profiles, on every target; the list
+    operations under the allocation invariant `wf`.  The one exception on this
+    tree is `Prefix.new` (`prefix_new_panics_iff`, `prefix_new_can_panic`).
+    Built-ins without argument validation contain no panicking construct at
+    all (`binding_panic_surface`). -/
+theorem builtin_no_panic (dbg : Bool) (s sep : Str) (i j n : U64) (l : RawListS) (hl : wf l) :
+    bind_StringBytes_len dbg s ≠ .panic ∧ bind_StringBytes_get dbg s i ≠ .panic ∧ bind_StringBytes_slice dbg s i j ≠ .panic ∧
+    bind_StringChars_len dbg s ≠ .panic ∧ bind_StringChars_get dbg s i ≠ .panic ∧ bind_StringChars_slice dbg s i j ≠ .panic ∧
+    bind_StringLines_len dbg s ≠ .panic ∧ bind_StringLines_get dbg s i ≠ .panic ∧ bind_StringLines_slice dbg s i j ≠ .panic ∧
+    bind_RotoString_repeat dbg s n ≠ .panic ∧ bind_RotoString_splitn dbg s n sep ≠ .panic ∧
+    bind_RotoString_rsplitn dbg s n sep ≠ .panic ∧
+    list_get_lookup dbg l i ≠ .panic ∧ bind_ErasedList_swap dbg l i j ≠ .panic ∧
+    (∀ b : Binding, b ≠ .Prefix_new → b.surface.any panics = false) :=
+  ⟨bytes_len_no_panic dbg s, bytes_get_no_panic dbg s i, bytes_slice_no_panic dbg s i j,
+   chars_len_no_panic dbg s, chars_get_no_panic dbg s i, chars_slice_no_panic dbg s i j,
+   lines_len_no_panic dbg s, lines_get_no_panic dbg s i, lines_slice_no_panic dbg s i j,
+   repeat_no_panic dbg s n, splitn_no_panic dbg s n sep, rsplitn_no_panic dbg s n sep,
+   list_get_no_panic dbg l hl i, list_swap_no_panic dbg l hl i j,
+   fun b hb => by
+     cases h : b.surface.any panics with
+     | false => rfl
+     | true => exact absurd ((binding_panic_surface b).mp h) hb⟩
 
 end RotoV.C10B
